@@ -137,6 +137,10 @@ LOAD_SIG = """
         old(w).file is None ==> (r matches Ok(a) ==> smap(a.endpoints).dom() =~= Set::<Seq<char>>::empty() && a.past_keys@.len() == 0
             && key_type_of(*key_type) == Some(a.current_key.key.key_type)), //@C11.fresh_account_only_without_an_account_file
         r matches Ok(a) ==> a.external_account == *external_account && a.name@ == a.name@,
+        // whatever was stored, the account handed to the daemon signs with a key of the configured type and algorithm - the
+        // documented defaults when the configuration names none (an edit that removes the setting is an edit like any other)
+        r matches Ok(a) ==> key_type_of(*key_type) == Some(a.current_key.key.key_type)
+            && alg_of(*signature_algorithm, *key_type) == Some(a.current_key.signature_algorithm), //@C11.loaded_account_has_a_key_of_the_configured_type_and_algorithm
 """
 
 WORLD = """
